@@ -30,10 +30,12 @@ def run_one(name, checks, tier, seed):
             p = subprocess.run([os.path.join(VERIF, 'check'), c, '--tier', tier], cwd=VERIF, env=env,
                                stdout=subprocess.PIPE, stderr=subprocess.STDOUT)
             out = p.stdout.decode('utf8', 'replace')
+            if p.returncode == 2:
+                open('/tmp/sens-%s-%s.log' % (name, c), 'w').write(out)
             sigs = [l.strip() for l in out.splitlines() if l.strip().startswith('signature:')]
             res[c] = {'rc': p.returncode, 'caught': p.returncode == 1 and 'VIOLATION property=' in out,
                       'wall': round(time.time() - t0, 1), 'signatures': sigs[:3],
-                      'tail': '' if p.returncode == 1 else out[-400:]}
+                      'tail': '' if p.returncode == 1 else out[-1500:]}
     finally:
         shutil.rmtree(base, ignore_errors=True)
     return name, res
@@ -52,7 +54,7 @@ def main():
     with concurrent.futures.ThreadPoolExecutor(a.jobs) as ex:
         for name, res in ex.map(lambda n: run_one(n, checks, a.tier, a.seed), names):
             for c, r in res.items() if 'error' not in res else []:
-                print('%-10s %-4s %s  %5.1fs  %s' % (name, c, 'CAUGHT' if r['caught'] else 'MISSED rc=%d' % r['rc'], r['wall'], '; '.join(r['signatures']) or r['tail'].replace('\n', ' | ')[-200:]), flush=True)
+                print('%-10s %-4s %s  %5.1fs  %s' % (name, c, 'CAUGHT' if r['caught'] else 'MISSED rc=%d' % r['rc'], r['wall'], '; '.join(r['signatures']) or r['tail'].replace('\n', ' | ')[-1200:]), flush=True)
                 missed += 0 if r['caught'] else 1
             if 'error' in res:
                 print('%-10s ERROR %s' % (name, res['error']), flush=True)
